@@ -45,12 +45,16 @@ class EngineModel:
         from .cfg import CFG
         from .guards import dominating_edges, cmp_parts
         g = CFG(fn)
+        from .dataflow import ReachingDefs, resolve
+        rd = ReachingDefs(g)
         out = {}
         n_ret = 0
         for n in g.nodes:
-            if not (n.kind == 'stmt' and isinstance(n.stmt, ast.Return) and isinstance(n.stmt.value, ast.Call) and is_self_attr(n.stmt.value.func)):
+            if not (n.kind == 'stmt' and isinstance(n.stmt, ast.Return) and n.stmt.value is not None):
                 continue
-            call = n.stmt.value
+            call, _dn = resolve(rd, n, n.stmt.value)
+            if not (isinstance(call, ast.Call) and is_self_attr(call.func)):
+                continue
             if not (len(call.args) == 1 and isinstance(call.args[0], ast.Name) and call.args[0].id == payvar and not call.keywords):
                 raise AnalysisError('unrecognised construct: dispatch call %s' % U(call))
             n_ret += 1
